@@ -370,6 +370,22 @@ def check_parse_ce4(ctx, fns, requests):
         cases.append(("dap4-parsece %s" % G.hexs(q), ce4_canon(fns, q), {"q": q}))
         ctx.count(("ce4", q), q.startswith("dap4.ce=") and len(q) > 8, tag="parse_ce-dap4")
     ctx.correspond("parse_ce(protocol='dap4') (parseCE4)", cases)
+    # what the DAP4 constraint-expression grammar says about a few fixed queries (written by hand from the DAP4
+    # specification: `;` separates projected variables, `|` filters, hyperslab [start:stride:last])
+    h = G.hexs
+    expect = {
+        "dap4.ce=a": "(ok ((path (%s ()))) ())" % h("a"),
+        "dap4.ce=a;b[1:2]": "(ok ((path (%s ())) (path (%s ((s 1 3 1))))) ())" % (h("a"), h("b")),
+        "dap4.ce=/g/v[0:1:3]|x>1": "(ok ((path (%s ((s 0 4 1))))) (%s))" % (h("/g/v"), h("x>1")),
+        "dap4.ce=/g/a[0:2:9];/g/b": "(ok ((path (%s ((s 0 10 2)))) (path (%s ()))) ())" % (h("/g/a"), h("/g/b")),
+        "a[0]": "(err ConstraintExpressionError)",
+        "dap4.ce=a[1:2:3:4]": "(err ConstraintExpressionError)",
+    }
+    for q, exp in expect.items():
+        got = ce4_canon(fns, q)
+        if got != exp:
+            ctx.oracle_fail("parse_ce (DAP4 branch) does not read a DAP4 constraint expression as the grammar says",
+                            {"kind": "ce4", "q": q, "expected": exp}, got, exp, size=len(q))
     # the reference server's own parser reads the proxy's requests the same way
     for q in requests:
         try:
@@ -379,7 +395,7 @@ def check_parse_ce4(ctx, fns, requests):
         except Exception as e:
             exp = "(err %s)" % err_class(e)
         got = ce4_canon(fns, q)
-        if got != exp and "%" not in q and "." not in q:
+        if got != exp and "%" not in q[8:] and "." not in q[8:]:
             ctx.oracle_fail("parse_ce (DAP4 branch) reads the proxy's request differently from the reference parser",
                             {"kind": "ce4", "q": q}, got, exp, size=len(q))
 
@@ -469,7 +485,9 @@ def run(ctx):
                 "chunks, fixed small sizes, random sizes, empty chunks; trailing junk, truncation, missing last flag, "
                 "garbage; a few payloads with chunks of 65 536 bytes and more); random datasets (10 numeric types, rank 0-3, shared/anonymous/mixed dimensions, groups to depth "
                 "3) serialised in both byte orders with random chunkings, decoded from a buffer and from a file; index "
-                "expressions (ints, negative, strided slices, Ellipsis, short tuples) through the reference DAP4 server; "
+                "expressions (ints, negative, strided slices, Ellipsis, short tuples) through the reference DAP4 server "
+                "(one dataset in five with names that DAP quoting changes), each also run through the model's whole "
+                "chain (dap4-e2e); parse_ce(protocol='dap4') on fixed query shapes and on every request of the run; "
                 "a case is non-trivial when it has several chunks or variables / a non-empty index")
     ctx.assumptions = ["host byte order is little-endian (sys.byteorder == %r here); decode_chunktype on a big-endian "
                        "host is characterised by C10_host_order_matters, not exercised" % sys.byteorder,
@@ -510,6 +528,15 @@ def replay(payload):
         exp = (bool(t & 1), bool(t & 2), "<" if t & 4 else ">")
         print("observed", got, "expected", exp)
         return tuple(got) == exp
+    if c["kind"] == "ce4":
+        got = ce4_canon(fns, c["q"])
+        exp = c.get("expected")
+        if exp is None:
+            name, slices = R.parse_dap4_ce(c["q"][len("dap4.ce="):])
+            exp = "(ok ((path (%s (%s)))) ())" % (G.hexs(name), " ".join(
+                "(s %d %d %d)" % (x.start, x.stop, x.step) for x in slices))
+        print("observed", got, "expected", exp)
+        return got == exp
     if c["kind"] == "dechunk":
         payload_b = bytes.fromhex(c["payload"])
         wire = R.chunked(payload_b, c["sizes"], c["little"]) + bytes.fromhex(c.get("junk", ""))
